@@ -123,9 +123,11 @@ func (st TrackerStatus) String() string {
 		return v
 	}
 
-	// other filters
+	// other filters: name every status (or group of statuses) that is
+	// fully contained in the filter, so that parsing the string back
+	// gives the same filter.
 	for k, v := range trackerStatusString {
-		if st&k > 0 {
+		if k != TrackerStatusUndefined && st&k == k {
 			values = append(values, v)
 		}
 	}
